@@ -87,8 +87,11 @@ func (mp MultiPolygon) Centroid() Point {
 				cy += (r[i].Y + r[i+1].Y) *
 					(r[i].X*r[i+1].Y - r[i+1].X*r[i].Y)
 			}
-			cx /= 6 * a
-			cy /= 6 * a
+			// The ring's own centroid does not depend on its winding
+			// direction; a only carries the weight (negative for holes).
+			sa := signedarea(r)
+			cx /= 6 * sa
+			cy /= 6 * sa
 			A += a
 			xA += cx * a
 			yA += cy * a
